@@ -296,6 +296,22 @@ pub fn queries(quick: bool) -> Vec<PolyQ> {
       }
     }
   }
+  // deep-large: polygons lying strictly inside ONE cell of their start depth (centred on the centre
+  // of a depth-7 cell, a third of that cell across), covered 16 and 17 levels deeper (outputs of
+  // ~1e5 cells): only the list of vertex cells can lead the recursion to them
+  for &(h7, d) in if quick { &[(17618u64, 23u8)][..] } else { &[(17618u64, 23u8), (17618, 24), (140001, 23), (9, 24)][..] } {
+    let (lon, lat) = cdshealpix::nested::center(7, h7);
+    let r = 0.3 * PI / 3.0f64.sqrt() / 128.0;
+    let shapes: Vec<(Vec<(f64, f64)>, bool)> = vec![
+      (make_polygon(lon, lat, 5, r, 1.0, 0.37, false), true),
+      (vec![destination(lon, lat, 0.2, r), destination(lon, lat, 0.2 + PI - 0.02, r), destination(lon, lat, 0.2 + PI + 0.02, r)], true),
+    ];
+    for (vertices, convex) in shapes {
+      for &exact in &[false, true] {
+        v.push(PolyQ { depth: d, exact, vertices: vertices.clone(), lon, lat, radius: r, convex });
+      }
+    }
+  }
   for &(lon, lat) in &poly_centres(quick) {
     for &r in &radii {
       if lat.abs() + r > HALF_PI - 0.02 {
@@ -331,7 +347,12 @@ pub fn queries(quick: bool) -> Vec<PolyQ> {
 }
 
 pub fn run(ctx: &Ctx) -> i32 {
-  let qs = queries(ctx.quick());
+  let mut qs = queries(ctx.quick());
+  if ctx.config == "relassert" {
+    // with debug assertions on, the special-point finder of the exact mode trips its own
+    // assertions on valid polygons (DESIGN.md 11.1): this profile runs the approximate mode only
+    qs.retain(|q| !q.exact);
+  }
   let _ = max_c2v(0);
   let chunk = 64;
   let njobs = (qs.len() + chunk - 1) / chunk;
